@@ -291,6 +291,24 @@ pub fn spend_coinbase(kc: &ExtKeychain, from: u32, in_value: u64, to: &[(u32, u6
 	tx(kc, KernelFeatures::Plain { fee: (fee as u32).into() }, &elems, &pb, id).expect("tx")
 }
 
+/// one transaction spending several coinbase outputs
+pub fn spend_coinbases(kc: &ExtKeychain, from: &[(u32, u64)], to: &[(u32, u64)], id: u64) -> Transaction {
+	let pb = ProofBuilder::new(kc);
+	let mut elems: Vec<Box<Append<ExtKeychain, ProofBuilder<'_, ExtKeychain>>>> = vec![];
+	let mut in_sum = 0;
+	for (k, v) in from {
+		elems.push(build::coinbase_input(*v, kid(*k)));
+		in_sum += v;
+	}
+	let mut out_sum = 0;
+	for (k, v) in to {
+		elems.push(build::output(*v, kid(*k)));
+		out_sum += v;
+	}
+	let fee = in_sum - out_sum;
+	tx(kc, KernelFeatures::Plain { fee: (fee as u32).into() }, &elems, &pb, id).expect("tx")
+}
+
 /// spend plain outputs into plain outputs
 pub fn spend_plain(kc: &ExtKeychain, from: &[(u32, u64)], to: &[(u32, u64)], features: Option<KernelFeatures>, id: u64) -> Transaction {
 	let pb = ProofBuilder::new(kc);
